@@ -717,6 +717,17 @@ class P16(SessionPlan):
         for ci in (0, 1, 4, 8, 9, 13):
             for blob in floods:
                 yield C.SessionCase("flood/ctx%d" % ci, ctxs[ci][0], steps=list(ctxs[ci][1]) + [("raw", 0, blob), ("pub", 0, 1), ("sub", 0, "str", 1, 0)])
+        # state left by EARLIER input (S173): a well-formed PUBLISH for a topic, then a PUBLISH cut right after the same
+        # topic bytes whose topic length declares more than follows -- alone, together in one segment, and on the next connection
+        for T in (b"a/b", b"t\xc3\xa9l\xc3\xa9/m\xc3\xa8tre", b"x" * 200):
+            good = bytes([0x30]) + _rl(2 + len(T) + 1) + len(T).to_bytes(2, "big") + T + b"p"
+            for k in (1, 2, 256):
+                cut = bytes([0x30]) + _rl(2 + len(T)) + (len(T) + k).to_bytes(2, "big") + T
+                for ci in (0, 5, 8):
+                    cfg, pre = ctxs[ci]
+                    yield C.SessionCase("hostile/after-good", cfg, steps=list(pre) + [("raw", 0, good), ("raw", 0, cut)])
+                    yield C.SessionCase("hostile/after-good", cfg, steps=list(pre) + [("raw", 0, good + cut)])
+                    yield C.SessionCase("hostile/after-good", cfg, steps=list(pre) + [("raw", 0, good), ("raw", 0, good), ("raw", 0, cut), ("raw", 0, good)])
         for n, blob in enumerate(hostile_blobs(tier, seed)):
             targeted = blob[:1] == b"T" and len(blob) > 2 and blob[1] >> 4 in (4, 5, 6, 7, 9, 11)
             if targeted:
@@ -741,6 +752,16 @@ class P16(SessionPlan):
 
 
 # ------------------------------------------------------------------------------ C17
+
+def _rl(n):
+    """MQTT remaining-length bytes of n."""
+    out = bytearray()
+    while True:
+        n, b = divmod(n, 128)
+        out.append(b | (0x80 if n else 0))
+        if not n:
+            return bytes(out)
+
 
 @register
 class P17(SessionPlan):
